@@ -45,6 +45,8 @@ def run(ctx):
         depth = depth_map(rng, n, h, w)
         image = np.float32(np.array([[[rng.random() for _ in range(w)] for _ in range(h)] for _ in range(ch)]))
         rec = {'planes': n, 'channels': ch, 'h': h, 'w': w, 'seed': ctx.seed}
+        # ONE image tensor and ONE depth tensor serve every object built for this case (as a caller would do): what the second
+        # object computes from them must be what it would compute from pristine copies (`image`, `depth` keep the reference values)
         timg, tdepth = torch.from_numpy(image.copy()), torch.from_numpy(depth.copy())
         # model plane indices
         flat = depth.reshape(-1)
@@ -57,13 +59,13 @@ def run(ctx):
             ctx.count('%s/ch%d/n%d' % (cls_name, ch, n))
             try:
                 if cls_name == 'multiplane_loss':
-                    obj = LW.multiplane_loss(timg.clone(), tdepth.clone(), number_of_planes=n, target_blur_size=5, blur_ratio=0.5,
+                    obj = LW.multiplane_loss(timg, tdepth, number_of_planes=n, target_blur_size=5, blur_ratio=0.5,
                                              scheme='defocus')
-                    obj_nb = LW.multiplane_loss(timg.clone(), tdepth.clone(), number_of_planes=n, target_blur_size=5, scheme='none')
+                    obj_nb = LW.multiplane_loss(timg, tdepth, number_of_planes=n, target_blur_size=5, scheme='none')
                 else:
-                    obj = LW.perceptual_multiplane_loss(timg.clone(), tdepth.clone(), number_of_planes=n, target_blur_size=5, blur_ratio=0.5,
+                    obj = LW.perceptual_multiplane_loss(timg, tdepth, number_of_planes=n, target_blur_size=5, blur_ratio=0.5,
                                                         scheme='defocus', base_loss_weights={'base_l2_loss': 1.})
-                    obj_nb = LW.perceptual_multiplane_loss(timg.clone(), tdepth.clone(), number_of_planes=n, target_blur_size=5, scheme='none',
+                    obj_nb = LW.perceptual_multiplane_loss(timg, tdepth, number_of_planes=n, target_blur_size=5, scheme='none',
                                                            base_loss_weights={'base_l2_loss': 1.})
             except Exception as e:
                 ctx.violation('%s(number_of_planes=%d, channels=%d) raised %r' % (cls_name, n, ch, e), dict(rec, cls=cls_name),
@@ -114,7 +116,7 @@ def run(ctx):
                 ps32 = [float(np.float32(p)) for p in ps]
                 depth2 = depth.copy()
                 depth2.reshape(-1)[:len(ps32)] = ps32
-                tg, mk = slice_rgbd_targets(timg.clone(), torch.from_numpy(depth2.copy()).unsqueeze(0), torch.tensor(ps32, dtype=torch.float32))
+                tg, mk = slice_rgbd_targets(timg, torch.from_numpy(depth2.copy()).unsqueeze(0), torch.tensor(ps32, dtype=torch.float32))
                 mk = mk.numpy(); tg = tg.numpy()
                 ctx.case(('slice_rgbd', variant, n, ch, h, w), True, dict(rec, positions=ps32))
                 ctx.count('slice_rgbd/' + variant)
